@@ -1,4 +1,6 @@
 import MorfuseModel.Container.Refine
+import MorfuseModel.HashSet.Enum
+import MorfuseModel.Gen.Primes
 /-!
 # C18 — core containers and strings behave like their abstract models
 
@@ -113,3 +115,116 @@ example : (step ({} : World Nat) (.objectAt false 1)).isOk = false ∧
          step w (.addDup false 1)) : R _).isOk = false := by decide
 
 end Morfuse.Container
+
+/-!
+## Part 2 — `con::set` / `con::map` / `set_enum` / `map_enum` (include/morfuse/Container/set.h)
+
+Everything holds for an arbitrary key type `κ`, value type `ν`, hash function `hash : κ → Nat` and
+prime table `primes`; `Reachable hash primes s` = `s` is the state after some finite history of
+`operator[] =`, `operator[]`, `addKeyValue(k, init)`, `find`, `remove`, `resize`, `shrink`, `clear`
+from the empty set.  The abstract model is a finite map, written as its lookup function
+`κ → Option ν`; `Spec.step` is the finite-map operation.
+-/
+namespace Morfuse.HashSet
+variable {κ ν : Type} [DecidableEq κ] [Inhabited ν] {hash : κ → Nat} {primes : List Nat}
+
+/-- the abstract history -/
+def Spec.run (m : κ → Option ν) : List (Op κ ν) → (κ → Option ν)
+  | [] => m
+  | op :: ops => Spec.run (Spec.step m op) ops
+
+/-- **Refinement.**  After any history, every lookup answers what a finite map answers after the
+    same history: insertion/overwrite binds the key, `remove` unbinds only the named key, `resize`,
+    `shrink`, the `rehash` inside an insertion and `clear` do to the bindings what they do to a
+    map (nothing, resp. empty it). -/
+theorem C18_set_refinement (ops : List (Op κ ν)) (x : κ) :
+    findKeyValue hash (run hash primes init ops) x = Spec.run (fun _ => none) ops x := by
+  suffices ∀ (ops : List (Op κ ν)) (s : State κ ν) (m : κ → Option ν), Inv hash s →
+      (∀ y, findKeyValue hash s y = m y) →
+      findKeyValue hash (run hash primes s ops) x = Spec.run m ops x by
+    refine this ops init _ (inv_init hash) (fun y => ?_)
+    rw [(inv_init hash).findVal_none_iff]; intro e he; simp [ents, init] at he
+  intro ops
+  induction ops with
+  | nil => intro s m _ hm; exact hm x
+  | cons op ops ih =>
+    intro s m hs hm
+    obtain ⟨a, b⟩ := step_refines hs primes op
+    refine ih _ _ a (fun y => ?_)
+    rw [b y]
+    have : findKeyValue hash s = m := funext hm
+    rw [this]
+
+/-- One more step from any reachable state is the finite-map operation (growth, shrinking and
+    rehashing preserve contents, removal removes only the named key). -/
+theorem C18_set_step_refinement {s : State κ ν} (h : Reachable hash primes s) (op : Op κ ν) (x : κ) :
+    findKeyValue hash (step hash primes s op) x = Spec.step (findKeyValue hash s) op x :=
+  (step_refines (reachable_inv h) primes op).2 x
+
+/-- **Lookups find precisely the keys present**: the bucket walk of `findKeyValue` answers `v` for
+    `k` iff some entry of the table carries `k ↦ v`; no two entries carry the same key; `size()` is
+    the number of entries; constructions − destructions of entries = `size()` (nothing is leaked,
+    nothing destroyed twice); `tableLength ≥ 1`, so `% tableLength` is never a division by zero. -/
+theorem C18_set_lookup_exact {s : State κ ν} (h : Reachable hash primes s) :
+    (∀ k v, findKeyValue hash s k = some v ↔ ∃ e ∈ ents s, e.key = k ∧ e.val = v) ∧
+    ((ents s).map (·.key)).Nodup ∧ s.count = (ents s).length ∧ s.ctor = s.dtor + s.count ∧
+    0 < s.tableLength ∧ s.table.length = s.tableLength := by
+  have hi := reachable_inv h
+  exact ⟨fun k v => hi.findVal_iff k v, hi.nodup, hi.count, hi.led, hi.pos, hi.len⟩
+
+/-- **Removal removes only the named key** and reports whether it was there. -/
+theorem C18_set_remove_only_named {s : State κ ν} (h : Reachable hash primes s) (k : κ) :
+    (remove hash s k).2 = (findKeyValue hash s k).isSome ∧
+    findKeyValue hash (remove hash s k).1 k = none ∧
+    ∀ x, x ≠ k → findKeyValue hash (remove hash s k).1 x = findKeyValue hash s x := by
+  obtain ⟨_, b, c⟩ := remove_find (reachable_inv h) k
+  refine ⟨b, by simpa using c k, fun x hx => by simpa [hx] using c x⟩
+
+/-- **Growth, shrinking and rehashing preserve contents**: the table after `resize n` (any `n`),
+    `shrink()` or the internal `rehash()` holds a permutation of the same entries. -/
+theorem C18_set_resize_preserves {s : State κ ν} (h : Reachable hash primes s) (n : Nat) :
+    (ents (resize hash s n)).Perm (ents s) ∧ (ents (shrink hash s)).Perm (ents s) ∧
+    (ents (rehash hash primes s)).Perm (ents s) :=
+  ⟨(resize_spec (reachable_inv h) n).2.1, (shrink_spec (reachable_inv h)).2,
+   (rehash_spec (reachable_inv h) primes).2.1⟩
+
+/-- what `operator[]` / `addKeyValue(k, init)` return: the value bound to `k`, or the initial value
+    of the binding they create -/
+theorem C18_set_add_returns {s : State κ ν} (h : Reachable hash primes s) (k : κ) (v0 : ν) :
+    (addKeyEntry hash primes s k v0).2.val = (findKeyValue hash s k).getD v0 :=
+  (addKeyEntry_find (reachable_inv h) primes k v0).2.2.1
+
+/-- **Enumeration visits each entry exactly once.**  Successive `NextElement()` calls of a fresh
+    `set_enum` (`map_enum::NextKey/NextValue` forward to it) return the list `enumAll s`, then
+    `nullptr`; that list is a permutation of the table's entries, so every key is visited once and
+    no other; `CurrentElement()` is what the last call returned. -/
+theorem C18_set_enumeration_once {s : State κ ν} (h : Reachable hash primes s) :
+    drain s (s.count + 1) (enumStart s) = enumAll s ∧ (enumAll s).Perm (ents s) ∧
+    ((enumAll s).map (·.key)).Nodup ∧ (enumAll s).length = s.count ∧
+    (∀ k v, (∃ e ∈ enumAll s, e.key = k ∧ e.val = v) ↔ findKeyValue hash s k = some v) ∧
+    (∀ e : Enum κ ν, match (enumNext s e).2 with
+      | some x => remaining s e = x :: remaining s (enumNext s e).1 ∧ (enumNext s e).1.cur = some x
+      | none => remaining s e = [] ∧ remaining s (enumNext s e).1 = [] ∧ (enumNext s e).1.cur = none) := by
+  have hi := reachable_inv h
+  have hp := enumAll_perm hi
+  refine ⟨?_, hp, ((hp.map _).nodup_iff).mpr hi.nodup, by rw [hp.length_eq, hi.count], ?_, enumNext_spec s⟩
+  · rw [enumAll_eq_remaining]
+    apply drain_eq
+    rw [← enumAll_eq_remaining, hp.length_eq, hi.count]; omega
+  · intro k v
+    rw [hi.findVal_iff]
+    constructor
+    · rintro ⟨e, he, h2⟩; exact ⟨e, hp.mem_iff.mp he, h2⟩
+    · rintro ⟨e, he, h2⟩; exact ⟨e, hp.mem_iff.mpr he, h2⟩
+
+/-- non-vacuity: with everything colliding (constant hash) and the real prime table, a history with
+    growth across 1 → 7 → 17, removal of a chain head and a chain middle, shrink and re-insertion -/
+example :
+    let s := run (fun _ : Nat => 5) Morfuse.Gen.setPrimes (init : State Nat Nat)
+      ([0, 1, 2, 3, 4, 5, 6, 7, 8].map (fun k => Op.put k (k + 10)) ++ [.remove 8, .remove 3, .shrink, .put 3 1, .touch 9])
+    (s.count, s.tableLength, (List.range 10).map (findKeyValue (fun _ => 5) s),
+      ((enumAll s).map (·.key)).length) =
+    (9, 17, [some 10, some 11, some 12, some 1, some 14, some 15, some 16, some 17, none, some 0], 9) := by
+  decide
+
+end Morfuse.HashSet
